@@ -1,6 +1,10 @@
 //! A lock-free prepend-only list.
 
+#[cfg(not(loom))]
 use std::sync::atomic::{AtomicPtr, Ordering};
+
+#[cfg(loom)]
+use loom::sync::atomic::{AtomicPtr, Ordering};
 
 /////////////////////////////////////////////// Node ///////////////////////////////////////////////
 
